@@ -218,6 +218,35 @@ func dominatingConds(b *ssa.BasicBlock) []edgeCond {
 		}
 	}
 	// the block itself may be the single-pred successor of its idom (covered above since idom chain starts at b.Idom()).
+	// a condition that is the value of a short-circuit expression (`case !valid || status == Sat:` builds the phi
+	// [true, status == Sat]): found false, an `||` came through its only non-constant edge, whose value is false and
+	// whose block's own conditions hold as well; found true, likewise for `&&`
+	for i := 0; i < len(out) && len(out) < 64; i++ {
+		phi, ok := out[i].Cond.(*ssa.Phi)
+		if !ok {
+			continue
+		}
+		var val ssa.Value
+		var from *ssa.BasicBlock
+		n, consts := 0, true
+		for k, e := range phi.Edges {
+			if c, isK := e.(*ssa.Const); isK && c.Value != nil {
+				if (c.Value.String() == "true") == out[i].True {
+					consts = false // a constant edge that agrees with the outcome: nothing follows
+				}
+				continue
+			}
+			val, from = e, phi.Block().Preds[k]
+			n++
+		}
+		if n != 1 || !consts {
+			continue
+		}
+		out = append(out, edgeCond{val, out[i].True, out[i].If})
+		if from != b {
+			out = append(out, dominatingConds(from)...)
+		}
+	}
 	return out
 }
 
@@ -711,13 +740,33 @@ func alwaysExecutedWith(c, s ssa.Instruction) bool {
 	if !instrDominates(s, c) {
 		return false
 	}
-	ok := true
-	allInstrs(s.Parent(), func(ins ssa.Instruction) {
-		if ret, isRet := ins.(*ssa.Return); isRet && instrReachableFrom(s, ret) && !instrDominates(c, ret) {
-			ok = false
+	// s comes first: no return may be reached from s on a path that avoids c (a return at the join below an
+	// if/else one arm of which holds both s and c is reached only through c)
+	if c.Block() == s.Block() {
+		return true
+	}
+	seen := map[*ssa.BasicBlock]bool{}
+	leak := false
+	var visit func(b *ssa.BasicBlock)
+	visit = func(b *ssa.BasicBlock) {
+		if seen[b] || b == c.Block() || leak {
+			return
 		}
-	})
-	return ok
+		seen[b] = true
+		if len(b.Instrs) > 0 {
+			if _, isRet := b.Instrs[len(b.Instrs)-1].(*ssa.Return); isRet {
+				leak = true
+				return
+			}
+		}
+		for _, nx := range b.Succs {
+			visit(nx)
+		}
+	}
+	for _, nx := range s.Block().Succs {
+		visit(nx)
+	}
+	return !leak
 }
 
 // isUnitCounter: phi is a loop counter that starts from 0 and is incremented by exactly 1 on some paths and left
